@@ -708,6 +708,12 @@ IvEndpointInRange(t) ==
 \* decimal digits of the scripts the drivers draw from (ASCII, Arabic-Indic, extended Arabic-Indic, full-width):
 \* Python's int() and \d take all of them for digits
 UDigit(c) == c \in 48..57 \/ c \in 1632..1641 \/ c \in 1776..1785 \/ c \in 65296..65305
+\* a full numeric date written up front, YYYY-MM-DD / YYYY/MM/DD / YYYY:MM:DD, alone or followed by a time
+LeadDate(t) ==
+  IF Len(t) < 10 \/ ~AllDigits(Sub(t, 1, 4)) \/ ~AllDigits(Sub(t, 6, 7)) \/ ~AllDigits(Sub(t, 9, 10))
+     \/ t[5] \notin {cDash, cSlash, cColon} \/ t[8] # t[5] \/ (Len(t) > 10 /\ t[11] \notin {cT, cSp})
+  THEN [has |-> FALSE]
+  ELSE [has |-> TRUE, d |-> <<Num(Sub(t, 1, 4)), Num(Sub(t, 6, 7)), Num(Sub(t, 9, 10))>>]
 J_parse_any(e) ==
   LET t == e.a.text  p == e.post  o == e.a.opts
       ascii == \A i \in 1..Len(t) : t[i] < 128
@@ -732,7 +738,16 @@ J_parse_any(e) ==
        \o (IF r.ok /\ r.kind # "time" /\ r.d[1] >= 1583
            THEN LET v == IF r.kind = "date" /\ ~o.exact THEN [r EXCEPT !.kind = "datetime"] ELSE r IN CmpParsed(p.top, v, PendCls, "recognised")
            ELSE <<>>)
-       \o (IF okd THEN CmpParsedDur(p.top, rd, "recognised-duration") ELSE <<>>))
+       \o (IF okd THEN CmpParsedDur(p.top, rd, "recognised-duration") ELSE <<>>)
+       \* extension: whatever else the string holds, a full date written up front is the date of the result, and an
+       \* impossible one (month 13, day 0, year 0000) is never accepted
+       \* (strict mode only: the dateutil fallback of strict=False re-reads the fields by its own rules)
+       \* and day_first=True deliberately swaps the month and day fields of the non-ISO spellings
+       \o (LET ld == IF ascii /\ o.strict /\ ~o.day_first THEN LeadDate(t) ELSE [has |-> FALSE] IN
+           IF ~ld.has \/ p.top.k \notin {"dt", "date", "time"} THEN <<>>
+           ELSE IF ~(ld.d[1] >= 1 /\ ld.d[2] \in 1..12 /\ ld.d[3] >= 1 /\ ld.d[3] <= DaysInMonth(ld.d[1], ld.d[2]))
+                THEN << <<"x-impossible-leading-date-accepted", ld.d>> >>
+                ELSE V("x-leading-date-kept", p.top.k # "time" /\ <<p.top.w[1], p.top.w[2], p.top.w[3]>> = ld.d, ld.d)))
 
 \* ---- C08 -----------------------------------------------------------------------------
 ItemKinds(items) == [i \in 1..Len(items) |-> <<items[i][1], items[i][2]>>]
